@@ -309,7 +309,7 @@ def gen_other(rng, tier):
             ops.append(rng.choice([["edge", cl[0], cl[1]], ["edge", cl[0], cl[1]], ["edge", cl[0], cl[0]], ["node", cl[0]], ["copy"]]))
         else:
             a, b = rng.choice("ABCD"), rng.choice("ABCD")
-            ops.append(rng.choice([["edge", a, b], ["edge", a, b], ["node", a], ["factor", sorted({a, b})], ["copy"]]))
+            ops.append(rng.choice([["edge", a, b], ["edge", a, b], ["node", a], ["factor", sorted({a, b})], ["copy"], ["poke"]]))
     return {"kind": kind, "ops": ops}
 
 
@@ -322,8 +322,9 @@ def run_other(case, drv):
     copies = []
 
     def snap(g):
+        fl = getattr(g, "factors", getattr(g, "cpds", []))
         return (set(map(str, g.nodes())), set(frozenset(map(str, e)) if kind != "dbn" else (str(e[0]), str(e[1])) for e in g.edges()),
-                len(getattr(g, "factors", getattr(g, "cpds", []))))
+                len(fl), sorted((tuple(map(str, f.scope())), tuple(float(x) for x in f.values.reshape(-1))) for f in fl))
     rejected = 0
     for i, op in enumerate(case["ops"]):
         before = snap(m)
@@ -342,6 +343,10 @@ def run_other(case, drv):
                 m.add_node(tuple(op[1]) if kind == "jt" else op[1])
             elif op[0] == "factor":
                 m.add_factors(DiscreteFactor(op[1], [2] * len(op[1]), [1.0] * (2 ** len(op[1]))))
+            elif op[0] == "poke":
+                # an in-place edit of a factor of the ORIGINAL (values are public numpy arrays): earlier copies must not see it
+                if getattr(m, "factors", None):
+                    m.factors[0].values[...] = m.factors[0].values + 1.0
             elif op[0] == "copy":
                 c = m.copy()
                 if snap(c)[:2] != snap(m)[:2]:
